@@ -57,6 +57,12 @@ structure WrH where
   rem : Addr
   shutdown : Bool := false
   fc : Nat
+  /-- identity of the stream-table entry the half was created for (repair of F-C02-2, `Model/StreamId.lean`).
+      The model uses the entry's channel index as its identity: `new_stream` allocates it fresh and never
+      reuses it, like the per-host counter `Tcp::next_stream_id` of the crate.  A read half remembers it as
+      `RdH.chan`, a pending connect as the `chan` of `Obj.connecting`.  Only the repaired transition system
+      (`applyStepI`) reads it. -/
+  sid : Nat := 0
   deriving Repr, Inhabited
 
 inductive Obj
@@ -102,6 +108,14 @@ structure WCfg where
   /-- repair of F-C04-1: a write on a stream whose socket is gone (reset by the peer) fails at once,
       before the flow-control credit check -/
   fixWriterReset : Bool := false
+  /-- repair of F-C02-2 (`Model/StreamId.lean`): every stream-table entry has an identity; the halves of a
+      stream (and the guard of a pending connect) remember the identity of the entry they were created for, and
+      every table access that comes from a half finds the entry only if the identity matches
+      (`Tcp::own_socket`).  The driver runs `applyStepI` instead of `applyStep` when the flag is on. -/
+  fixStreamId : Bool := false
+  /-- suggested completion of that repair (the patch as written lacks it — `residual_F_C02_2`): a read half
+      whose table entry is gone or is not its own sends no RST when it is dropped with unread data. -/
+  fixStaleRst : Bool := false
   deriving Repr, Inhabited
 
 structure World where
